@@ -67,13 +67,23 @@ static int mu_try_acquire_after_timeout_or_cancel (nsync_mu *mu, lock_type *l_ty
 						   waiter *w, uint32_t remove_count) {
 	int success = 0;
 	unsigned spin_attempts = 0;
+	uint32_t zero_to_acquire = MU_WZERO_TO_ACQUIRE;
 	uint32_t old_word = ATM_LOAD (&mu->word);
 	/* Spin until we can acquire the spinlock and a writer lock on *mu. */
-	while ((old_word&(MU_WZERO_TO_ACQUIRE|MU_SPINLOCK)) != 0 ||
+	while ((old_word&(zero_to_acquire|MU_SPINLOCK)) != 0 ||
 	       !ATM_CAS_ACQ (&mu->word, old_word,
 			     (old_word+MU_WADD_TO_ACQUIRE+MU_SPINLOCK) &
 			     ~MU_WCLEAR_ON_ACQUIRE)) {
-		/* Failed to acquire.  If we can, set the MU_WRITER_WAITING bit
+		/* Failed to acquire.  If another thread has meanwhile removed
+		   *w from the queue and woken this thread, this thread is the
+		   designated waker, and, as in nsync_mu_lock_slow_(), only
+		   the constraints of mutual exclusion should stop it:
+		   MU_LONG_WAIT might otherwise never clear, because the
+		   long waiter sleeps until MU_DESIG_WAKER is released.  */
+		if (ATM_LOAD_ACQ (&w->nw.waiting) == 0) { /* acquire load */
+			zero_to_acquire &= ~MU_LONG_WAIT;
+		}
+		/* If we can, set the MU_WRITER_WAITING bit
 		   to avoid being starved by readers. */
 		if ((old_word & (MU_WRITER_WAITING | MU_SPINLOCK)) == 0) {
 			/* If the following CAS succeeds, it effectively
